@@ -206,7 +206,17 @@ func consolePhase() []string {
 	defer func() { zerolog.ErrorHandler = oldH }()
 	for r := 0; r < 4; r++ {
 		out := &flakyOut{}
-		l := zerolog.New(zerolog.ConsoleWriter{Out: out, NoColor: true, PartsExclude: []string{zerolog.TimestampFieldName}})
+		cw := zerolog.ConsoleWriter{Out: out, NoColor: true, PartsExclude: []string{zerolog.TimestampFieldName}}
+		format := "INF m g=%d k=%d"
+		if r%2 == 1 {
+			// a writer made by the constructor, with a field order: its FIRST events are concurrent (whatever it computes lazily
+			// from its configuration is computed while several goroutines are inside Write)
+			cw = zerolog.NewConsoleWriter(func(w *zerolog.ConsoleWriter) {
+				w.Out, w.NoColor, w.PartsExclude, w.FieldsOrder = out, true, []string{zerolog.TimestampFieldName}, []string{"k", "g"}
+			})
+			format = "INF m k=%[2]d g=%[1]d"
+		}
+		l := zerolog.New(cw)
 		G, K := 6, 80
 		var wg sync.WaitGroup
 		for g := 0; g < G; g++ {
@@ -222,7 +232,13 @@ func consolePhase() []string {
 		seen := map[string]int{}
 		for _, ln := range out.lines {
 			var g, k int
-			if n, _ := fmt.Sscanf(ln, "INF m g=%d k=%d", &g, &k); n != 2 || ln != fmt.Sprintf("INF m g=%d k=%d s=\"x y\"\n", g, k) {
+			var n int
+			if r%2 == 1 {
+				n, _ = fmt.Sscanf(ln, "INF m k=%d g=%d", &k, &g)
+			} else {
+				n, _ = fmt.Sscanf(ln, "INF m g=%d k=%d", &g, &k)
+			}
+			if n != 2 || ln != fmt.Sprintf(format+" s=\"x y\"\n", g, k) {
 				bad = append(bad, fmt.Sprintf("ConsoleWriter handed its destination something that is not one event's line: %q", ln))
 				continue
 			}
